@@ -106,6 +106,12 @@ class C04(ParseProp):
 
     def oracle(self, ct, it):
         c = fields(ct)
+        # this oracle reads next / peek / sublex / intosub / setfilter / drain only (what C04 generates); histories with other
+        # operations belong to C05's oracle, and more than one filter at build time to C05's known-finding class
+        if any((op if isinstance(op, str) else op[0]) not in ('next', 'peek', 'sublex', 'intosub', 'setfilter', 'drain', 'emptyf', 'query') for op in c['ops']):
+            return []
+        if sum(1 for b in c['build'] if b[0] == 'filter') > 1:
+            return []
         le, tab, flt = final_config(c['build'])
         toks = lexsim.scan_all(c['text'], le, tab, c['scanner'])
         ref = lexsim.RefLexer(toks, 0, flt)
